@@ -82,6 +82,8 @@ def run(ctx):
                         del_guards[replay["schema"]] = out["ok"]
                 elif op == "trivialApplies":
                     delguards.check_trivial_applies(ctx, replay, out)
+                elif op == "directApplies":
+                    delguards.check_direct_applies(ctx, replay, out)
                 else:
                     delguards.check_delete_applies(ctx, replay, out)
                 continue
@@ -181,6 +183,9 @@ def run(ctx):
                     if not (f == t and not req.size):
                         # `trivialFit_replace_applies`: a closed slice that fits trivially applies (hypotheses exactly)
                         delguards.tie_trivial_applies(ctx, info, del_guards.get(info.name), d, f, t, req, reqs, metas)
+                        # `replace_applies_direct`: a closed slice the node `from` is in accepts as it stands — every
+                        # emitted step applies (hypotheses exactly, the whole operation's answer class exactly)
+                        delguards.tie_direct_applies(ctx, info, del_guards.get(info.name), d, f, t, req, reqs, metas)
                     if name in ("delete_range", "delete"):
                         # delete_range as a whole (widening + Fitter): the recorded step, exactly
                         rangeplan.tie_delete_range_step(ctx, info, d, f, t, reqs, metas)
